@@ -102,15 +102,17 @@ func (this *Server) setup() error {
 		return err
 	}
 
-	if err := this.zeroGroup.Start(); err != nil {
-		return err
-	}
-	verifGate("setup.afterZeroStart")
-
 	this.nodesManager = raft.NewNodesManager(this.clusterConn, this.zeroGroup)
 
 	this.datasetManager, err = storage.NewDatasetManager(sharedGroup.Get("datasets"), this.db, raftTransport, this.clusterConn, this.allocator)
 	if err != nil {
+		return err
+	}
+
+	// Start the zero group only after its consumers are registered: Start applies the
+	// stored snapshot and the apply loop replays the committed log right away.
+	verifGate("setup.afterZeroStart")
+	if err := this.zeroGroup.Start(); err != nil {
 		return err
 	}
 
